@@ -5,6 +5,7 @@ import tier_b as tb
 import model_heapgraph as mh
 import model_sync as ms
 import model_exhaust as mx
+import model_mtheap as mm
 
 REAL_B = ["the whole linked executable: compiled Dora code (both code generators), pkgs/std (thread.dora lock-word protocol, collections), dora-runtime (threads, safepoints, wait lists, all four collectors, TLABs, write barrier slow path, parallel marking/evacuation with work stealing and termination detection, concurrent sweeper, heap controller), dora-startup",
           "GC worker pool and concurrent sweeper pool run as simulator tasks (facade crates over shuttle)"]
@@ -35,7 +36,7 @@ def hg_run(seed, prop, i, fault_free, collectors=("zero", "copy", "sweep", "swip
     faults = tb.draw_faults(cfg, fault_free)
     allocs_est = w.next_id + len(script)
     tb.cap_fault_rates(faults, allocs_est, gc, heap, "--gc-verify" in flags)
-    if stress and allocs_est * tb.gc_cost_ms(gc, heap, "--gc-verify" in flags) > 4000:
+    if stress and allocs_est * tb.gc_cost_ms(gc, heap, "--gc-verify" in flags) > 1500:
         flags.remove(stress)
         stress = None
     sim = {"seed": cfg.getrandbits(48), "policy": tb.draw_policy(cfg, 2 + 2 * workers, max(200, 40 * w.next_id // 10)),
@@ -52,6 +53,57 @@ def hg_run(seed, prop, i, fault_free, collectors=("zero", "copy", "sweep", "swip
             "tags": {"gc": gc, "codegen": cg, "profile": prof, "workers": workers, "heap_mb": heap if gc != "zero" else 128,
                      "tlab": "off" if "--disable-tlab" in flags else "on", "gc_verify": "--gc-verify" in flags, "stress": stress or "none",
                      "policy": sim["policy"].split(":")[0], "fault_free": fault_free}}
+
+
+def mt_run(seed, prop, i, fault_free, collectors=("copy", "sweep", "swiper"), codegens=("cannon", "boots")):
+    """Multi-threaded heap workload: collections requested by any thread while the others
+    allocate, sit in natives, wait at the barrier or hold the process-wide mutex."""
+    wl = tb.stream(seed, prop, i, "workload")
+    cfg = tb.stream(seed, prop, i, "config")
+    script = mm.generate(wl)
+    out = mm.expected(script)
+    gc = cfg.choices(list(collectors), [3 if c != "swiper" else 6 for c in collectors])[0]
+    cg = cfg.choice(list(codegens))
+    flags, workers, heap = tb.draw_gc_flags(cfg, gc)
+    flags = [f for f in flags if not f.startswith("--max-heap-size") and not f.startswith("--min-heap-size")] + ["--max-heap-size=%dM" % cfg.choice([16, 32])]
+    faults = tb.draw_faults(cfg, fault_free)
+    tb.cap_fault_rates(faults, 300 + len(script), gc, 16, "--gc-verify" in flags)
+    t = script[0]
+    sim = {"seed": cfg.getrandbits(48), "policy": tb.draw_policy(cfg, t + 2 * workers, 500 + 20 * len(script)), "hot": 0 if fault_free else cfg.choice([0, 300, 3000])}
+    if gc == "swiper":
+        sim["hotsweep"] = cfg.choice([sim["hot"], 20000, 65536])
+    sim.update(faults)
+    return {"index": i, "exe": ["mtheap", gc, cg, "sim"], "argv": script, "dora_flags": " ".join(flags), "sim": sim,
+            "expect": {"rc": 0, "stdout": out, "stderr_empty": True}, "timeout": 300, "fault_free": fault_free,
+            "tags": {"gc": gc, "codegen": cg, "profile": "multithreaded", "threads": t, "workers": workers, "policy": sim["policy"].split(":")[0], "fault_free": fault_free,
+                     "tlab": "off" if "--disable-tlab" in flags else "on", "gc_verify": "--gc-verify" in flags}}
+
+
+def mt_shrink(argv):
+    t, phases, nslots, code = mm.parse(argv)
+    # drop the last phase pair, then single operations (never TAKE/PUBLISH structure-breaking: any subset stays valid)
+    if phases > 1:
+        yield mm.flatten(t, phases - 1, nslots, [c[:phases - 1] for c in code])
+    for tid in range(t):
+        for p in range(phases):
+            for k in range(len(code[tid][p]) - 1, -1, -1):
+                c2 = [[list(ops) for ops in th] for th in code]
+                del c2[tid][p][k]
+                yield mm.flatten(t, phases, nslots, c2)
+
+
+def c03_make_run(seed, prop, i, fault_free):
+    if i % 3 == 2:
+        return mt_run(seed, prop, i, fault_free)
+    return hg_run(seed, prop, i, fault_free)
+
+
+class _ShrinkByDriver:
+    def __init__(self, by):
+        self.by_driver = by
+
+    def __call__(self, argv):
+        return self.by_driver["heapgraph"](argv)
 
 
 def hg_shrink(argv):
@@ -75,7 +127,10 @@ def hg_shrink(argv):
 
 
 def hg_expect(argv, run):
-    out, _ = mh.run(argv)
+    if run["exe"][0] == "mtheap":
+        out = mm.expected(argv)
+    else:
+        out, _ = mh.run(argv)
     e = dict(run["expect"])
     e["stdout"] = out
     return e
@@ -196,11 +251,196 @@ def run_tier_b_property(prop, tier, quick_s, thorough_s, drivers, collectors, co
     return exit_code
 
 
+def boots_workload_batch(tier, budget_s):
+    """The optimizing compiler itself (50k lines of Dora, allocation heavy) as a workload: its
+    compiler image is linked against the simulated runtime and compiles corpus packages under
+    seeded schedules and injected collections; the assembly it emits must be byte-identical
+    to the fault-free reference, whatever the collection schedule."""
+    import hashlib, subprocess, threading
+    dbg = os.path.join(REPO, "target", "debug")
+    dora = os.path.join(dbg, "dora")
+    simlib = os.path.join(SIM, "target", "release", "libdora_startup.a")
+    os.makedirs(tb.TB, exist_ok=True)
+    images = {}
+
+    def build_image(gc):
+        base = os.path.join(tb.TB, "bootsimg-%s" % gc)
+        p = tb.sh([dora, "compile", "--internal-compile-boots", "--cannon", "-S", "--gc=" + gc, os.path.join(REPO, "pkgs/boots/boots.dora"), "-o", base])
+        if p.returncode != 0:
+            return gc, "compile failed: " + p.stderr.decode(errors="replace")[-1500:]
+        p = tb.sh(["gcc", "-c", base + ".s", "-o", base + ".o"])
+        if p.returncode != 0:
+            return gc, "assemble failed"
+        p = tb.sh(["gcc", base + ".o", simlib, "-Wl,-x", "-lpthread", "-ldl", "-lm", "-o", base + ".sim"])
+        if p.returncode != 0:
+            return gc, "link failed: " + p.stderr.decode(errors="replace")[-1500:]
+        for ext in (".s", ".o"):
+            os.remove(base + ext)
+        return gc, base + ".sim"
+
+    t0 = time.time()
+    from concurrent.futures import ThreadPoolExecutor
+    with ThreadPoolExecutor(2) as ex:
+        for gc, res in ex.map(build_image, ["swiper", "copy"]):
+            if not res.endswith(".sim"):
+                harness_error("boots image (%s): %s" % (gc, res))
+            images[gc] = res
+    log("built 2 simulated boots compiler images in %.1fs" % (time.time() - t0))
+    packages = {}
+    refs = {}
+    for name in ("kitchen", "sync"):
+        pkg = os.path.join(tb.TB, "bw-%s.dora-package" % name)
+        p = tb.sh([dora, "compile", "-c", os.path.join(VERIF, "workloads", name + ".dora"), "-o", pkg])
+        if p.returncode != 0:
+            harness_error("package for %s failed" % name)
+        packages[name] = pkg
+
+    def compile_once(image_gc, name, target_gc, sim, flags, tag):
+        out = os.path.join(tb.TB, "bw-out-%s.s" % tag)
+        stats = os.path.join(tb.TB, "bw-stats-%s.json" % tag)
+        env = dict(os.environ)
+        env["DORA_FLAGS"] = flags
+        sim = dict(sim)
+        sim["stats"] = stats
+        env["VERIF_SIM"] = tb.sim_string(sim)
+        for f in (out, stats):
+            if os.path.exists(f):
+                os.remove(f)
+        try:
+            p = subprocess.run([images[image_gc], packages[name], "-o", out, "--gc=" + target_gc], env=env, stdout=subprocess.PIPE, stderr=subprocess.PIPE, timeout=600, cwd=tb.TB)
+            rc, err, to = p.returncode, p.stderr.decode(errors="replace")[:3000], False
+        except subprocess.TimeoutExpired:
+            rc, err, to = -9, "", True
+        digest = hashlib.sha256(open(out, "rb").read()).hexdigest() if os.path.exists(out) else None
+        st = {}
+        try:
+            st = json.load(open(stats))
+        except Exception:
+            pass
+        for f in (out, stats):
+            if os.path.exists(f):
+                os.remove(f)
+        return {"rc": rc, "stderr": err, "timeout": to, "sha": digest, "stats": st, "stdout": ""}
+
+    # fault-free references (one per image collector x package)
+    for image_gc in images:
+        for name in packages:
+            r = compile_once(image_gc, name, "swiper", {"seed": 1, "policy": "runtoblock"}, "--gc-worker=1", "ref-%s-%s" % (image_gc, name))
+            if r["rc"] != 0 or r["sha"] is None:
+                harness_error("fault-free boots reference failed (%s, %s): rc=%s %s" % (image_gc, name, r["rc"], r["stderr"][-500:]))
+            refs[(image_gc, name)] = r["sha"]
+    if len(set(refs[(g, n)] for g in images for n in ["kitchen"])) != 1:
+        harness_error("boots reference outputs differ between collector images")
+
+    s = seed()
+    lock = threading.Lock()
+    state = {"next": 0}
+    results = []
+    tstart = time.time()
+
+    def worker():
+        while True:
+            with lock:
+                if time.time() - tstart > budget_s:
+                    return
+                i = state["next"]
+                state["next"] += 1
+            cfg = tb.stream(s, "C03", i, "bootswork")
+            image_gc = cfg.choice(["swiper", "swiper", "copy"])
+            name = cfg.choice(sorted(packages))
+            heap = cfg.choice([16, 32, 64])
+            workers = cfg.choice([1, 2, 4])
+            flags = ["--gc-worker=%d" % workers, "--max-heap-size=%dM" % heap]
+            if cfg.random() < 0.3:
+                flags.append("--gc-verify")
+            if image_gc == "swiper" and cfg.random() < 0.4:
+                flags.append("--gc-young-size=%dM" % cfg.choice([2, 4]))
+            faults = tb.draw_faults(cfg, False)
+            tb.cap_fault_rates(faults, 4000, image_gc, heap, "--gc-verify" in flags, run_budget_ms=6000)
+            sim = {"seed": cfg.getrandbits(48), "policy": tb.draw_policy(cfg, 2 + 2 * workers, 2000), "hot": cfg.choice([0, 300, 3000])}
+            if image_gc == "swiper":
+                sim["hotsweep"] = cfg.choice([sim["hot"], 20000, 65536])
+            sim.update(faults)
+            r = compile_once(image_gc, name, "swiper", sim, " ".join(flags), "%d-%d" % (os.getpid(), i))
+            run = {"index": i, "exe": ["boots-image", image_gc, "cannon", "sim"], "argv": [name], "dora_flags": " ".join(flags), "sim": sim,
+                   "expect": {"rc": 0, "stderr_empty": True}, "workload": "boots compiler compiling %s" % name}
+            v = tb.classify(run, r)
+            if v is None and r["sha"] != refs[(image_gc, name)]:
+                v = ("output-mismatch", "assembly emitted by the simulated compiler differs from the fault-free reference")
+            with lock:
+                results.append((run, r, v))
+
+    threads = [threading.Thread(target=worker) for _ in range(JOBS)]
+    for t in threads:
+        t.start()
+    for t in threads:
+        t.join()
+    return results, images, packages, refs
+
+
 def c03(tier):
-    return run_tier_b_property(
-        "C03", tier, quick_s=90, thorough_s=1500, drivers=["heapgraph"], collectors=["zero", "copy", "sweep", "swiper"], codegens=["cannon", "boots"],
-        make_run=hg_run, shrink=hg_shrink, expect_fn=hg_expect,
-        level_text="seeded search over generated object-graph scripts x collector x code generator x heap/young size x workers x TLAB x gc-verify x schedule x injected collections/allocation failures; oracle = Python reference model of the script (exact stdout), clean exit, no runtime assertion / gc-verify failure / signal, M-stw monitor inside every collection")
+    t0 = time.time()
+    main = run_tier_b_property(
+        "C03", tier, quick_s=75, thorough_s=1200, drivers=["heapgraph", "mtheap"], collectors=["zero", "copy", "sweep", "swiper"], codegens=["cannon", "boots"],
+        make_run=c03_make_run, shrink=_ShrinkByDriver({"heapgraph": hg_shrink, "mtheap": mt_shrink}), expect_fn=hg_expect, write=False,
+        level_text="seeded search over generated object-graph scripts x collector x code generator x heap/young size x workers x TLAB x gc-verify x schedule x injected collections/allocation failures; oracle = Python reference model of the script (exact stdout), clean exit, no runtime assertion / gc-verify failure / signal, M-stw monitor inside every collection, M-sweep after every concurrent sweep")
+    exit_code, cov, reported = main
+    results, images, packages, refs = boots_workload_batch(tier, tier_budget(tier, 40, 600) if not os.environ.get("VERIF_BUDGET_S") else float(os.environ["VERIF_BUDGET_S"]) / 2)
+    bw = {"runs": len(results), "gc_minor_injected": 0, "gc_full_injected": 0, "alloc_fail_injected": 0, "stw_operations": 0, "decisions": 0, "passed": 0}
+    seen = set()
+    for run, r, v in results:
+        for k in ("gc_minor_injected", "gc_full_injected", "alloc_fail_injected", "stw_operations", "decisions"):
+            bw[k] += r["stats"].get(k, 0)
+        if v is None:
+            bw["passed"] += 1
+            continue
+        key = "boots-workload:%s" % v[0]
+        if key in seen:
+            continue
+        seen.add(key)
+        rp = save_replay("C03", {"property": "C03", "tier": "B", "kind": "boots-workload", "run": run, "violation_class": v[0], "violation": v[1],
+                                 "observed": {"rc": r["rc"], "stderr_head": r["stderr"][:1500], "stats": r["stats"]},
+                                 "how_to_replay": "bin/check C03 --replay <this file> rebuilds the simulated compiler image and re-runs this configuration"})
+        if match_known("C03", key):
+            report_known("C03", match_known("C03", key)["what"])
+        else:
+            report_violation("C03", rp)
+            log("  class=%s detail=%s" % v)
+            exit_code = 1
+        reported.append({"class": v[0], "detail": v[1], "replay": rp, "key": key})
+    cov["evaluations"] += bw["runs"]
+    cov["distinct_nontrivial"] += bw["passed"]
+    cov["boots_compiler_as_workload"] = bw
+    cov["violations_reported"] = reported
+    write_evidence("C03", tier, "exploration", cov, time.time() - t0, len(reported), ASSUME_B)
+    log("C03 boots-as-workload: %d compilations under fault schedules, %d identical to the reference" % (bw["runs"], bw["passed"]))
+    return exit_code
+
+
+def c03_replay(path):
+    obj = json.load(open(path))
+    if obj.get("kind") != "boots-workload":
+        return tb.replay_file(path)
+    build_repo(("dora", "dora-runtime", "dora-startup"))
+    build_sim(("dora-startup",))
+    os.environ["VERIF_BUDGET_S"] = "0"
+    results, images, packages, refs = boots_workload_batch("quick", 0)
+    import subprocess, hashlib
+    run = obj["run"]
+    env = dict(os.environ)
+    env["DORA_FLAGS"] = run["dora_flags"]
+    env["VERIF_SIM"] = tb.sim_string(run["sim"])
+    out = os.path.join(tb.TB, "bw-replay.s")
+    p = subprocess.run([images[run["exe"][1]], packages[run["argv"][0]], "-o", out, "--gc=swiper"], env=env, stdout=subprocess.PIPE, stderr=subprocess.PIPE, cwd=tb.TB)
+    r = {"rc": p.returncode, "stderr": p.stderr.decode(errors="replace")[:3000], "timeout": False, "stats": {}, "stdout": ""}
+    v = tb.classify(run, r)
+    if v is None and os.path.exists(out) and hashlib.sha256(open(out, "rb").read()).hexdigest() != refs[(run["exe"][1], run["argv"][0])]:
+        v = ("output-mismatch", "assembly differs from the fault-free reference")
+    if v is None:
+        print("REPLAY-RESULT ok")
+        return 0
+    print("REPLAY-RESULT violation class=%s detail=%s" % v)
+    return 1 if v[0] == obj["violation_class"] else 3
 
 
 def sync_run(seed, prop, i, fault_free, collectors=("copy", "sweep", "swiper"), codegens=("cannon", "boots")):
